@@ -849,5 +849,39 @@ def r17_13(ctx):
     return r
 
 
+def r17_14(ctx):
+    """'subsequent API calls return promptly instead of hanging': close() ends every REGISTERED data channel (R17.12). A
+    channel registered after that sweep is never opened and never closed - its recv() waits for ever. create_data_channel
+    therefore refuses a closed connection, and decides it under the registry lock (which the sweep of close() takes
+    after it has published Closed): either the channel is registered before the sweep, or the call sees Closed."""
+    r = RuleResult("R17.14", "K1+K5", "no data channel is registered on a closed connection")
+    b = ctx.body("peer_connection::PeerConnection::create_data_channel")
+    r.scope.append(b.name)
+    pushes = [bi for bi, t, p in b.calls() if p and p.endswith("::push") and t["a"] and mir.has_field(b.term_operand(t["a"][0]), "data_channels")]
+    r.need("registry pushes in create_data_channel", len(pushes), 1)
+    locks = [bi for bi, t, p in b.calls() if p and p.endswith("::lock") and t["a"] and mir.has_field(b.term_operand(t["a"][0]), "data_channels")]
+
+    def open_edge(term, meaning, *_):
+        if term[0] == "call" and "PartialEq" in term[1] and isinstance(meaning, bool) and \
+                mir.has_field(term, "signaling_state") and mir.has(term, lambda x: x[0] == "agg" and x[2] == "Closed"):
+            return meaning is term[1].endswith("::ne")
+        return False
+    g = core.guard_edges(b, open_edge)
+    for bi in pushes:
+        if not g or core.k1(b, [bi], g)[bi] is not None:
+            r.violate(b.name, "register:closed", b.where(bi),
+                      "a data channel can be registered on a connection that close() has already swept: it is never opened nor closed and its "
+                      "recv() never returns")
+            continue
+        late = [sb for sb, _t in g if not core.must_pass(b, sb, locks)]
+        if late:
+            r.violate(b.name, "register:unlocked-check", b.where(late[0]),
+                      "the closed test is made before the registry lock is taken: close() can publish Closed and sweep the registry between the "
+                      "test and the registration")
+        else:
+            r.ok({"site": b.where(bi), "cut_by": "signaling state != Closed, tested under the registry lock"})
+    return r
+
+
 def run(ctx):
-    return [r17_1(ctx), r17_2(ctx), r17_3(ctx), r17_4(ctx), r17_5(ctx), r17_6(ctx), r17_7(ctx), r17_8(ctx), r17_9(ctx), r17_10(ctx), r17_11(ctx), r17_12(ctx), r17_13(ctx)]
+    return [r17_1(ctx), r17_2(ctx), r17_3(ctx), r17_4(ctx), r17_5(ctx), r17_6(ctx), r17_7(ctx), r17_8(ctx), r17_9(ctx), r17_10(ctx), r17_11(ctx), r17_12(ctx), r17_13(ctx), r17_14(ctx)]
